@@ -144,6 +144,10 @@ def main():
         corpus = mod.corpus() if hasattr(mod, "corpus") else []
         # witnesses of repaired defects stay as regression cases (a fixed entry suppresses nothing)
         corpus = [f["witness"] for f in common.load_findings() if f["property"] == prop and f["status"] == "fixed"] + corpus
+        # inputs on which an earlier version of the code failed (harvested from the replays of seeded changes): they run first, on every run
+        cp = os.path.join(VERIF, "corpus", prop + ".json")
+        if os.path.exists(cp):
+            corpus = corpus + [e["case"] for e in json.load(open(cp))]
         cases = corpus + mod.cases(rng, tier)
         explore(cases, driver_ok)
         if hasattr(mod, "extra_checks"):
